@@ -224,6 +224,9 @@ func (c *channel) sendMsg(req request) (err error) {
 	defer c.streamMut.RUnlock()
 
 	done := make(chan struct{})
+	// the stream (and its cancel function) may be replaced by reconnect as soon
+	// as the read lock is released; the goroutine below must cancel this stream.
+	cancelStream := c.cancelStream
 
 	// This goroutine waits for either 'done' to be closed, or the request context to be cancelled.
 	// If the request context was cancelled, we have two possibilities:
@@ -241,7 +244,7 @@ func (c *channel) sendMsg(req request) (err error) {
 				// false alarm
 			default:
 				// trigger reconnect
-				c.cancelStream()
+				cancelStream()
 			}
 		}
 	}()
